@@ -107,5 +107,5 @@ MANIFEST = dict(
                 "obligation chains are real executions; C10_ic3_block_sem: blocking for any frame representation, the side condition of the "
                 "proposed repair). Tie to /repo: the real patronus::mc::pdr is run against z3 and cvc5 (several seeds, "
                 "generalisation on/off) on generated systems and its verdict and witnesses are compared with reach_spec on every run."),
-    level_note="Trusted: Coq kernel; the solver, the SMT encoding behind each query and the BMC fallback are ORACLES (assumed truthful in the theorems; recorded answers are replayed in the tie); termination is proved for the model over a finite state space (Unknown remains possible at the 1000-frame limit for systems with >= 1000 state valuations). Repaired in /repo through this check: PDR unsound / Err when an init expression reads an input (a4b99b1). Open finding: Err inherited from the encoding on cyclic init dependencies.",
+    level_note="Trusted: Coq kernel; the solver, the SMT encoding behind each query and the BMC fallback are ORACLES (assumed truthful in the theorems; recorded answers are replayed in the tie); termination is proved for the model over a finite state space (Unknown remains possible at the 1000-frame limit for systems with >= 1000 state valuations). Repaired in /repo through this check: PDR unsound / Err when an init expression reads an input (a4b99b1). Open findings: Err inherited from the encoding on cyclic init dependencies; Unknown beyond the 1000-frame limit (key pdr:unknown:frame-limit, proved for the model: C10_pdr_model_deep_unknown_sys).",
 )
